@@ -13,7 +13,7 @@ from common import coq_eval, natl, natll, parse_ints, try_coq
 from gens import atoms_of, base_cells, make_supercell, random_dataset
 from tensors import apply_op, full_basis_tensors, same_span
 
-UNITS = ["IndepGen", "ShapesSpg", "ShapesCoset", "ShapesO1", "ShapesBasis", "ShapesAuxO1", "ShapesReps", "SkelSpg", "SkelBasis", "SkelIdx"]
+UNITS = ["IndepGen", "ShapesSpg", "ShapesCoset", "ShapesO1", "ShapesBasis", "ShapesAuxO1", "ShapesReps", "SkelSpg", "SkelBasis", "SkelIdx", "ShapesSumRule", "ShapesPerm", "SkelMat", "SkelPerm", "EigStruct", "ShapesAuxEig", "SkelEig"]
 PROPS = ["props/C02.v"]
 EXTRA = ["theories/CosetModel.vo"]
 ASSUMPTIONS = ["orthogonality and the group law of the float matrices L r L^-1, the 1e-10 entry drop and spglib's output are assumptions checked numerically",
@@ -44,7 +44,7 @@ def check(ctx):
     from o1 import check_o1
     check_o1(ctx, "C02", np.random.default_rng(ctx.seed + 1001))   # the exported first-order basis
     ctx.rule = ("cells: triclinic P1/P-1, monoclinic P/C, orthorhombic C, hexagonal, rhombohedral, cubic primitive/centred, n_lp in {1,2,4}, shuffled atoms; operations: spglib, "
-                "explicit full group in shuffled order (identity first), proper subgroup; every operation applied to expanded basis vectors (all, up to a cap) and to fits. Non-trivial: group order >= 2")
+                "explicit full group in shuffled order (identity first, and with a rotation first), proper subgroup; every operation applied to expanded basis vectors (all, up to a cap) and to fits. Non-trivial: group order >= 2")
     cells = [("mono_P", (1, 1, 1)), ("tri2_Pm1", (1, 1, 1)), ("hcp", (1, 1, 1)), ("bcc_conv", (1, 1, 1)), ("ortho_C", (1, 1, 1)), ("tri1", (2, 2, 1)), ("rhombo2", (1, 1, 1)), ("nacl_prim", (1, 1, 1)), ("mono_C", (1, 1, 1)),
              ("tri1", (3, 1, 1)), ("mono_P", (1, 3, 1)), ("p4_general", (1, 1, 1))]   # lattice translations of order 3 (T != T^-1)
     if not ctx.quick:
@@ -85,6 +85,13 @@ def check(ctx):
         cosetlist = sorted(pure_, key=lambda i_: (np.abs(trans[i_]).max() > 1e-9, i_)) + reps_
         if len(pure_) > 1 and reps_ and (rots[cosetlist[0]] == np.eye(3, dtype=int)).all() and np.abs(trans[cosetlist[0]]).max() < 1e-9:
             variants.append(("explicit-translations-plus-representatives", {"rotations": rots[cosetlist], "translations": trans[cosetlist]}))
+        # the whole group with the identity NOT first: an operation with a rotation part leads the list
+        nonid = [i_ for i_ in range(nops) if not (rots[i_] == np.eye(3, dtype=int)).all()]
+        inf_order = None
+        if nonid:
+            f_ = nonid[int(rng.integers(len(nonid)))]
+            inf_order = [f_] + [int(i_) for i_ in rng.permutation(nops) if i_ != f_]
+            variants.append(("explicit-identity-not-first", {"rotations": rots[inf_order], "translations": trans[inf_order]}))
         proper = [i for i in range(nops) if round(np.linalg.det(rots[i])) == 1]
         if 0 < len(proper) < nops:
             variants.append(("proper-subgroup", {"rotations": rots[proper], "translations": trans[proper]}))
@@ -95,7 +102,7 @@ def check(ctx):
                 g_idx = order_
             elif vname == "explicit-rotation-major":
                 g_idx = rm
-            elif vname == "explicit-translations-plus-representatives":
+            elif vname in ("explicit-translations-plus-representatives", "explicit-identity-not-first"):
                 g_idx = list(range(nops))
             else:
                 g_idx = proper
@@ -105,6 +112,13 @@ def check(ctx):
                 obj = Symfc(at, spacegroup_operations=sgops)
                 try:
                     obj.compute_basis_set(orders=[order])
+                except AssertionError as e:
+                    if vname != "explicit-identity-not-first":
+                        raise
+                    # the implementation refuses (loudly) listings whose first operation is not the identity when the cell has
+                    # pure translations besides it: no result, no violation
+                    ctx.count("listing-rejected-by-assertion")
+                    continue
                 except Exception as e:  # noqa: BLE001
                     ctx.fail("oracle", f"C02/oracle/raised/order{order}", f"{sc['name']} ops={vname} order {order}: computing the basis set raised {type(e).__name__}: {e}",
                              replay={"cell": sc["name"], "lattice": sc["lattice"].tolist(), "positions": sc["positions"].tolist(), "numbers": [int(x) for x in sc["numbers"]], "ops": vname, "order": order,
@@ -130,7 +144,7 @@ def check(ctx):
                     ctx.fail("oracle", f"C02/oracle/basis/order{order}", f"{sc['name']} ops={vname} order {order}: an expanded basis vector is not invariant under operation {arg} (r={rots[arg].tolist()}, t={trans[arg].round(6).tolist()}): relative change {worst:.2e}",
                              replay={"cell": sc["name"], "lattice": sc["lattice"].tolist(), "positions": sc["positions"].tolist(), "numbers": [int(x) for x in sc["numbers"]], "ops": vname, "order": order, "operation": int(arg)}, has_input=True)
                 # the span of a subgroup's basis must contain the full group's basis (and equal it for the full group given in another order)
-                if vname in ("explicit-shuffled", "explicit-rotation-major", "explicit-translations-plus-representatives"):
+                if vname in ("explicit-shuffled", "explicit-rotation-major", "explicit-translations-plus-representatives", "explicit-identity-not-first"):
                     o2 = Symfc(at)
                     o2.compute_basis_set(orders=[order])
                     F1 = np.asarray(b.compression_matrix @ b.basis_set)
